@@ -13,6 +13,7 @@ from ..model import MISSING, SessionModel
 from ..prng import sub
 
 ID = "C07"
+PROBES = ['probe_bad_test', 'probe_bad_site_shared_by_tests', 'tests_judged']  # reach probes: counters that must be non-zero in a run (a zero is printed and recorded)
 LEVEL = "exploration"
 BUDGET = {"quick": 480, "thorough": 12000}
 WALL = {"quick": 300, "thorough": 3000}
